@@ -4,9 +4,7 @@ open Closure
 
 /-! # C07 model: `valid_mag`, `has_adc`, `is_maximal` (pywhy_graphs/algorithms/generic.py)
 
-`has_adc` as after the `fix:` commit on branch f-a0607 (an almost directed cycle is a bidirected edge
-between a node and one of its strict ancestors – the old scan required a third node in between and
-missed `a -> b, a <-> b`). -/
+The four stages of `valid_mag` in the order of the code; `inducing_path` is the C06 model. -/
 namespace C07
 open MG C06
 
@@ -19,9 +17,17 @@ def edgeScanBad (G : MG) : Bool :=
   G.nodes.any fun node => (nbrs G node).any fun elem =>
     unB G node elem || (biB G node elem && decide ((node, elem) ∈ G.dir))
 
-/-- `has_adc(G)` -/
+/-- `nx.descendants(G.sub_directed_graph(), v)`: strict descendants -/
+def descStrict (G : MG) (v : Nat) : List Nat := closure G.nodes G.children (G.children v)
+
+/-- `has_adc(G)`, literally: for some node `elem` a bidirected edge joins a strict ancestor of `elem`
+    with a strict descendant of `elem`.  (It misses `a -> b, a <-> b`; `valid_mag` rejects those pairs
+    in its first loop – theorem `C07.validMag_iff`.) -/
 def hasAdc (G : MG) : Bool :=
-  G.bi.any fun e => decide (e.1 ∈ ancStrict G e.2) || decide (e.2 ∈ ancStrict G e.1)
+  G.nodes.any fun elem =>
+    G.bi.any fun e =>
+      (decide (e.1 ∈ ancStrict G elem) && decide (e.2 ∈ descStrict G elem)) ||
+      (decide (e.2 ∈ ancStrict G elem) && decide (e.1 ∈ descStrict G elem))
 
 /-- the scan over non-adjacent ordered pairs shared by `valid_mag` and `is_maximal`:
     `cur_set = all_nodes - nb - {source}` -/
